@@ -26,6 +26,7 @@ tnvars == <<nvars, l>>
 
 TraceInit == NInit /\ l = 1
 
+Fail(a) == IF "fail" \in DOMAIN a THEN a.fail ELSE FALSE
 \* the logged peer table as a function pid -> record
 LoggedPeers(st) ==
   LET ps == st.peers IN
@@ -38,13 +39,13 @@ LoggedPeers(st) ==
 OpaqueFeed(r) ==
   /\ peers' = LoggedPeers(r.st) /\ nextPid' = r.st.nextPid
   /\ out' = [res |-> r.out.res, evs |-> r.out.evs, sends |-> r.out.sends]
-  /\ act' = [a |-> "feed", addr |-> r.act.addr, d |-> r.d]
+  /\ act' = [a |-> "feed", addr |-> r.act.addr, d |-> r.d, fail |-> Fail(r.act)]
 
 \* a tick during which sends to one address fail: that peer is taken from the trace, the others tick as specified
 TickFail(r) ==
   LET a == r.act.failaddr
       lp == LoggedPeers(r.st)
-      t == [p \in Pids |-> TickOp(peers[p].x)] IN
+      t == [p \in Pids |-> TickOp(peers[p].x, 0)] IN
   /\ DOMAIN lp = Pids
   /\ peers' = [p \in Pids |-> IF peers[p].addr = a THEN lp[p] ELSE [peers[p] EXCEPT !.x = t[p].x]]
   /\ out' = [Quiet EXCEPT !.sends = [b \in Addrs |-> IF PidOf(b) = -1 \/ b = a THEN <<>> ELSE t[PidOf(b)].outs]]
@@ -52,12 +53,11 @@ TickFail(r) ==
   /\ act' = [a |-> "tick"]
   /\ UNCHANGED nextPid
 
-Fail(a) == IF "fail" \in DOMAIN a THEN a.fail ELSE FALSE
 Act(r) ==
   LET a == r.act IN
   CASE a.a = "connect"    -> ConnectAt(a.addr)
-    [] a.a = "feed"       -> IF r.clean THEN FeedWith(a.addr, r.d, FALSE) ELSE OpaqueFeed(r)
-    [] a.a = "accept"     -> NetAccept(a.pid)
+    [] a.a = "feed"       -> IF r.clean THEN FeedWith(a.addr, r.d, FALSE, Fail(a)) ELSE OpaqueFeed(r)
+    [] a.a = "accept"     -> AcceptWith(a.pid, Fail(a))
     [] a.a = "reject"     -> RejectWith(a.pid, a.r, Fail(a))
     [] a.a = "disconnect" -> DisconnectWith(a.pid, a.r, Fail(a))
     [] a.a = "ignore"     -> NetIgnore(a.pid)
